@@ -134,6 +134,10 @@ def finish(ctx, cmd):
         if i.get("witness"):
             print("    witness: %s" % (i["witness"],))
         print("VIOLATION property=%s replay=%s" % (prop, path))
+    with open(os.path.join(out_dir, "instances.jsonl"), "w") as fh:
+        for r in ctx.rules:
+            for i in r.instances:
+                fh.write(json.dumps({k: i.get(k) for k in ("rule", "key", "where", "verdict", "what")}, default=str) + "\n")
     wall = time.time() - ctx.t0
     samples = []
     for r in ctx.rules:
